@@ -53,6 +53,9 @@ func classifyECH(b []byte, pub string) string {
 	if b == nil {
 		return "nil"
 	}
+	if len(b) == 0 {
+		return "Empty"
+	}
 	for k, v := range polLists {
 		if bytes.Equal(b, v) {
 			return k
@@ -143,7 +146,9 @@ func runPolScenario(t *testing.T, sc polScen, K int) (evs []Ev, crash string) {
 		var tc *tls.Config
 		if sc.Cech != "nil" || sc.Csn != "" {
 			tc = &tls.Config{NextProtos: []string{"h2"}}
-			if sc.Cech != "nil" {
+			if sc.Cech == "Empty" {
+				tc.EncryptedClientHelloConfigList = []byte{}
+			} else if sc.Cech != "nil" {
 				tc.EncryptedClientHelloConfigList = bytes.Clone(polLists[sc.Cech])
 			}
 			if sc.Csn != "" {
